@@ -203,6 +203,31 @@ Theorem C02_full_model_converges_closed :
 Proof. exact full_model_converges_closed. Qed.
 Print Assumptions C02_full_model_converges_closed.
 
+(* (3h) ... AND THEN QUIET.  From the round after the plan has become empty, the computed status is the stored one
+   (the status written in the converging round is reproduced by the next computation: same census, the current
+   revision resolved from the stored currentRevision carries the same name; and a consistent status is left alone),
+   so every later world satisfies quietb — by (3c) a reconcile there issues no write at all.  This closes the
+   property over the full model for a regular initial world whose revision list is within the limit. *)
+Theorem C02_full_model_converges_and_goes_quiet :
+  forall hashes s0 upd cnt r limit slots,
+    0 <= cnt <= max_i32 + 1 -> s_deleting s0 = false -> NoDup (s_claims s0) -> s_rolling s0 <> None ->
+    get_paused (s_pause s0) = false -> s_selector s0 = SelOk ->
+    s_replicas s0 = Some r -> extend r (get_slots (s_slots s0)) = (cnt, slots) -> s_rhl s0 = Some limit ->
+    forall (Wd : nat -> world), (forall k, Wd (S k) = env_round hashes (Wd k)) ->
+    forall st0 rv0 rcur0 rupd coll,
+    w_set (Wd O) = Some (set_status s0 st0 rv0) ->
+    wf s0 cnt slots (w_pods (Wd O)) -> NoDup (w_pods (Wd O)) -> all_claimed s0 (w_pods (Wd O)) ->
+    (forall j, in_range cnt slots j = true -> claims_cached s0 (Wd O) j) ->
+    nothing_to_adopt (Wd O) s0 = true ->
+    gsr_value hashes (set_status s0 st0 rv0) (sort_revs (lrevs (Wd O) s0)) = Some (rcur0, rupd, coll) ->
+    upd = rinfo_of rupd ->
+    Z.of_nat (length (sort_revs (lrevs (Wd O) s0))) <= limit ->
+    exists k, Z.of_nat k <= mu s0 upd cnt slots (w_pods (Wd O)) + 1
+      /\ forall m, (k <= m)%nat ->
+           pods_converged s0 upd cnt slots (w_pods (Wd m)) /\ quietb hashes (Wd m) (Wd m) = true.
+Proof. exact full_model_converges_and_goes_quiet. Qed.
+Print Assumptions C02_full_model_converges_and_goes_quiet.
+
 (* non-vacuity of (3e)-(3g): a concrete world whose fair rounds are all regular (RoundExample.v; rx_converges_closed
    instantiates (3g) from the initial world alone): an outdated pod, a pod
    in a delete slot, a failed pod, ordinal 3 vacant; the theorem gives convergence within mu = 6 rounds *)
@@ -216,6 +241,10 @@ Example C02_ex_full_model_closed :
     /\ forall m, (k <= m)%nat -> pods_converged rx_set rx_upd 4 [1] (w_pods (rx_W m))
                                 /\ forall cur, plan_acts rx_set cur rx_upd 4 [1] (w_pods (rx_W m)) = [].
 Proof. exact rx_converges_closed. Qed.
+Example C02_ex_goes_quiet :
+  exists k, Z.of_nat k <= 7
+    /\ forall m, (k <= m)%nat -> pods_converged rx_set rx_upd 4 [1] (w_pods (rx_W m)) /\ quietb ex_hashes (rx_W m) (rx_W m) = true.
+Proof. exact rx_goes_quiet. Qed.
 
 Theorem C02_defaulted_spec :
   forall s, (String.eqb (s_strategy s) "RollingUpdate" = true -> s_rolling s <> None) ->
@@ -259,22 +288,18 @@ Example C02_ex_quiet :
   quietb ex_hashes w w = true.
 Proof. vm_compute. reflexivity. Qed.
 
-(* (4) PARTIAL — what is NOT proved.  Full statement: for every WF world there is n <= bound(world) such that
-   n fair rounds reach a world that is converged with status.replicas = readyReplicas = spec.replicas, after
-   which a reconcile issues no write at all (status and revisions included).  Proved: (1)-(3e) — the pod phase
-   is never stuck, is quiet exactly at the converged states, reaches one in at most mu rounds (abstractly, for
-   any environment, and over the full reconcile + environment model), the computed status there says
-   replicas = ready = spec.replicas, and in a quietb world no write at all is issued.  NOT proved in Coq:
-   the case of a revision list longer than revisionHistoryLimit (a truncation in mid-rollout changes the list the
-   next revision phase sorts) — (3g) assumes the list within the limit, (3f) the quiet revision phase per round; and that the world a fair history
-   ends in satisfies quietb (the stored status is the computed one, the history is tidy).  Both are evaluated
-   inside coqc by props/c02.py: round_check (the hypotheses of (3d) plus the equality of the two rounds) on
-   the worlds of every generated history at its round boundaries and on synthetic settled worlds, quietb on the
-   final world of every generated history.  Both are also decided on the implementation by props/c02.py on every
-   generated history (chaotic prefix of reconciles, kubelet events, partial cache refreshes, transient
-   faults, edits that stop; then the fair suffix): the set must be converged, the status must be the census,
-   and the last two reconciles must issue no write; the environment model Env.v is compared with the real
-   world after every operation inside coqc. *)
+(* (4) WHAT IS NOT PROVED.  (3h) is the property over the full reconcile + environment model for a REGULAR initial
+   world (in sync, nothing to adopt, every pod claimed and well-formed, the update revision in place, claims of
+   the desired ordinals known) whose revision list is within revisionHistoryLimit.  Not proved in Coq: the phase
+   BEFORE regularity — the chaotic prefix of a history (faults, lagging caches, adoption of orphans, creation of
+   the update revision, pods not yet settled), after which the fair suffix starts from whatever world it left;
+   and revision lists longer than the limit (a truncation in mid-rollout changes the list the next revision
+   phase sorts; (3f) then assumes the quiet revision phase per round).  Both are decided on the implementation by
+   props/c02.py on every generated history (chaotic prefix of reconciles, kubelet events, partial cache
+   refreshes, transient faults, edits that stop; then the fair suffix): the set must be converged, the status
+   must be the census, and the last two reconciles must issue no write; the environment model Env.v is compared
+   with the real world after every operation inside coqc, and round_check / regularb / quietb are evaluated
+   inside coqc on the worlds of every history at its round boundaries and at its end. *)
 Theorem C02_converges_partial_example :
   (* a concrete history in the model: scale-in at slot 1 with Parallel converges in two rounds and is then quiet *)
   let s := ex_set 3 (Some "[1]"%string) "Parallel" 1 0 (ex_status 3 "web-h1" "web-h1") in
